@@ -34,5 +34,7 @@ dirs = [d for d in sorted((VERIF / "seeded").iterdir()) if (d / "patch.diff").ex
 with ThreadPoolExecutor(int(os.environ.get("PGV_JOBS", "6"))) as ex:
     list(ex.map(one, dirs))
 out = dict(sorted(out.items()))
-if not only:
-    (VERIF / "seeded" / "SUMMARY.json").write_text(json.dumps(out, indent=1, default=str))
+summ = VERIF / "seeded" / "SUMMARY.json"
+if only and summ.exists():          # a partial re-run replaces its own entries only
+    out = dict(sorted({**json.loads(summ.read_text()), **out}.items()))
+summ.write_text(json.dumps(out, indent=1, default=str))
